@@ -113,6 +113,22 @@ def suite_wiring(ctx, case):
         same = G.wiring_tok(p) == before
         ctx.pred('wiring', case, same, 'creating a second PRISM object from the same System (after changing kT and a diameter) changed the first object', key='C01:wiring')
         ctx.corr('wiring', case, ctx.drv.ask('prism.wiring'), G.wiring_tok(p), rtol=1e-11, atols=G.wiring_atols(before, sd, p.sys.domain.k), what='first PRISM object after a second one was created')
+    if case.get('continue_from_psys'):
+        # a continuation: the EVALUATED object's own System (p.sys) is edited (kT, a diameter) and a new PRISM object is built from it;
+        # it must behave exactly like one built from a fresh System with those parameters
+        L = sd['dom'][0]
+        nn = sd['n']; x0 = 0.05 * np.sin(1.0 + 0.37 * np.arange(nn * nn * L))
+        with warnings.catch_warnings():
+            warnings.simplefilter('ignore')
+            with np.errstate(all='ignore'):
+                p.cost(x0.copy())
+                s3 = p.sys; s3.kT = sd['kT'] * 0.8
+                p3 = s3.createPRISM(); y3 = p3.cost(x0.copy())
+                sdf = dict(sd, kT=sd['kT'] * 0.8); sdf.pop('kT_assign', None)
+                yf = G.build_system(sdf).createPRISM().cost(x0.copy())
+        okc = bool(np.allclose(y3, yf, rtol=1e-10, atol=1e-12, equal_nan=True))
+        ctx.pred('wiring', case, okc, 'a PRISM object built from an evaluated object\'s own System (p.sys) after its kT was changed evaluates cost(x) differently from one built from a fresh System: max diff %.3g' %
+                 (float(np.nanmax(np.abs(y3 - yf))) if np.all(np.isfinite(y3 - yf)) else float('nan')), key='C01:wiring')
     return p
 
 def suite_cost(ctx, case):
@@ -257,7 +273,7 @@ def generate(ctx):
     for _ in range(ctx.n(60, 600)):
         sd = G.gen_system(rng, maxn=3, maxL=ctx.n(32, 128))
         if sd['n'] >= 2 and rng.random() < 0.4: uniformise(rng, sd)
-        case = {'sys': sd, 'second': rng.random() < 0.4}
+        case = {'sys': sd, 'second': rng.random() < 0.4, 'continue_from_psys': rng.random() < 0.5}
         ctx.case('wiring', case, sd['n'] >= 2, tags=tags_of(sd) + (['second-prism'] if case['second'] else [])); suite_wiring(ctx, case)
     for _ in range(ctx.n(60, 500)):
         sd = G.gen_system(rng, maxn=3, maxL=ctx.n(24, 64))
